@@ -355,6 +355,55 @@ func genOdd(r *rng.R) corr.Case {
 	return corr.Case{Tag: "odd-keys", Lines: lines}
 }
 
+// routeShape: sharded lockers whose routing must not depend on history: Bs keys owning their slice mixed with ints (bsx),
+// ints with colliding xxhash digests (col), or ordinary int / string keys; shards stated = the pure routing function.
+func routeShape(r *rng.R) shape {
+	sh := shape{N: r.Range(3, 5), K: r.Range(3, 5)}
+	switch r.Intn(4) {
+	case 0:
+		sh.kind, sh.hash, sh.prime = "klg", "bsx", r.PickInt(73, 73, 13, 3)
+		for i := 0; i < sh.K; i++ {
+			var v interface{} = 7000 + i
+			if i%2 == 0 {
+				v = newBsKey(i)
+			}
+			sh.shards = append(sh.shards, pureIndex(v, uint64(sh.prime), true))
+		}
+	case 1:
+		sh.kind, sh.hash, sh.prime = r.Pick("klg", "tkg"), "col", 73
+		for _, v := range colInts(sh.K) {
+			sh.shards = append(sh.shards, pureIndex(v, 73, true))
+		}
+	default:
+		sh.kind, sh.hash, sh.prime = r.Pick("klg", "tkg"), r.Pick("mod", "xh", "str"), r.PickInt(73, 73, 13, 7)
+		for i := 0; i < sh.K; i++ {
+			sh.shards = append(sh.shards, r.Intn(sh.prime))
+		}
+	}
+	return sh
+}
+
+// genReroute: keys are held (writers and readers); the process creates other ReMaps / lockers with other shard counts and looks
+// other keys up; the held keys must still be where they were: probes park, unlocks reach their entries, nothing is left.
+func genReroute(r *rng.R) corr.Case {
+	sh := routeShape(r)
+	lines := []string{sh.init(), "lock 0 0", "rlock 1 1"}
+	if sh.K > 3 {
+		lines = append(lines, "rlock 1 3")
+	}
+	primes := []int{13, 7, 3, 2, 97, 73, 5, 1}
+	for i := 0; i < r.Range(1, 3); i++ {
+		lines = append(lines, fmt.Sprintf("remap %d", primes[r.Intn(len(primes))]))
+		// look other keys up on the locker itself (lookup memos, pooled buffers)
+		lines = append(lines, "rlock 2 2", "runlock 2 2")
+		if r.Bool() {
+			lines = append(lines, "rlock 2 1", "runlock 2 1")
+		}
+	}
+	lines = append(lines, "counts 0", "lock 2 0", "lock "+strconv.Itoa(sh.N-1)+" 1", "unlock 0 0", "runlock 1 1", "entries", "drain", "entries")
+	return corr.Case{Tag: "reroute", Lines: lines}
+}
+
 // genBurst: a single-shard locker holds 1024..1500 keys at once while a few ordinary keys are held by other threads
 // (readers and a writer); the burst drains; the held keys must still exclude (probes park) and nothing may leak.
 func genBurst(r *rng.R) corr.Case {
@@ -389,6 +438,10 @@ func genScriptShape(r *rng.R, sh shape, tag string, ordered bool, hot bool, n in
 	lines := []string{sh.init()}
 	rank := func(k int) int { return sh.shards[k]*1000 + k }
 	for i := 0; i < n; i++ {
+		if (sh.kind == "klg" || sh.kind == "tkg") && r.Chance(1, 30) {
+			lines = append(lines, fmt.Sprintf("remap %d", r.PickInt(1, 2, 3, 13, 73, 97)))
+			continue
+		}
 		if r.Chance(1, 8) {
 			if r.Bool() {
 				lines = append(lines, "entries")
@@ -628,7 +681,7 @@ func genMalformed(r *rng.R) corr.Case {
 	lines := []string{sh.init()}
 	bad := []string{"lock", "lock 0", "lock 0 0 0", "lock x 0", "lock 0 x", "lock 99 0", "lock 0 99", "lock -1 0", "lock 00 0", "locks 0 0,,1",
 		"locks 0 ,", "locks 0 0,99", "unlocks 0", "Lock 0 0", "counts", "counts 99", "counts x", "entries 1", "drain 0", "", "  ", "rlock 0 0 extra",
-		"runlock 0 +0", "locks 0 0;1", "burst 0 w 48", "lockrange 0 w 48", "lockrange 0 w 48 9000", "mutate", "mutate 99", "burst 0 x 48 60", "burst 0 w 60 48", "burst 0 w 48 4000", "unburst 9 w 48 60", "stress", "stress 0 10", "stress 4", "stress 17 10", "stress 4 5001", "stress x 1", "init", "init kl mod 1", "init zz mod 1 2 1 0", "init kl mod 2 2 1 0", "init tkg mod 2 2 2 0 2", "init tkg mod 2 2 2 0",
+		"runlock 0 +0", "locks 0 0;1", "burst 0 w 48", "lockrange 0 w 48", "lockrange 0 w 48 9000", "mutate", "mutate 99", "remap", "remap 0", "remap 101", "remap x", "burst 0 x 48 60", "burst 0 w 60 48", "burst 0 w 48 4000", "unburst 9 w 48 60", "stress", "stress 0 10", "stress 4", "stress 17 10", "stress 4 5001", "stress x 1", "init", "init kl mod 1", "init zz mod 1 2 1 0", "init kl mod 2 2 1 0", "init tkg mod 2 2 2 0 2", "init tkg mod 2 2 2 0",
 		"init tkg md5 2 2 2 0 1", "init tkg mod 0 2 1 0", "init tkg mod 2 0 1 0", "init tkg mod 2 17 1 0", "init tkg mod 101 2 1 0"}
 	for i := 0; i < 8; i++ {
 		switch r.Intn(3) {
@@ -785,6 +838,32 @@ func fixedCases() []corr.Case {
 	out = append(out, mk("fixed-odd-keys", "init klg ptr 2 3 2 0 1", "lock 0 0", "mutate 0", "lock 1 0", "unlock 0 0", "drain", "entries"),
 		mk("fixed-odd-keys", "init tkg flt 73 3 3 1 2 3", "lock 0 0", "lock 1 1", "rlocks 2 0,1,2", "drain", "entries"),
 		mk("fixed-odd-keys", "init kl ptr 1 3 2 0 0", "lock 0 0", "mutate 0", "lock 1 0", "unlock 0 0", "mutate 0", "unlock 1 0", "entries"))
+	// routing must not depend on history or on other containers
+	rr := rng.New(20261002)
+	for i := 0; i < 10; i++ {
+		out = append(out, genReroute(rr.Fork(uint64(i))))
+	}
+	{
+		ci := colInts(4)
+		var shs []string
+		for _, v := range ci {
+			shs = append(shs, strconv.Itoa(pureIndex(v, 73, true)))
+		}
+		// a held; c evicts the memo slot; b (same low 32 bits as a) is looked up; a must still be where it was
+		out = append(out, mk("fixed-colliding-keys", "init tkg col 73 4 4 "+strings.Join(shs, " "), "lock 0 0", "rlock 1 2", "runlock 1 2", "rlock 1 1", "runlock 1 1",
+			"counts 0", "lock 2 0", "unlock 0 0", "drain", "entries"))
+		var bs []string
+		for i := 0; i < 4; i++ {
+			var v interface{} = 7000 + i
+			if i%2 == 0 {
+				v = newBsKey(i)
+			}
+			bs = append(bs, strconv.Itoa(pureIndex(v, 73, true)))
+		}
+		// a Bs key owning its slice is held; integer keys are looked up (here and on another locker); the Bs key must not move
+		out = append(out, mk("fixed-bs-keys", "init klg bsx 73 4 4 "+strings.Join(bs, " "), "lock 0 0", "rlock 1 1", "runlock 1 1", "remap 73", "rlock 1 3", "runlock 1 3",
+			"counts 0", "lock 2 0", "unlock 0 0", "drain", "entries"))
+	}
 	// an unordered nest of single locks: a real deadlock, expected (no order discipline) — both sides must report the same stuck threads
 	out = append(out, mk("fixed-unordered-deadlock", "init kl mod 1 2 2 0 0", "lock 0 0", "lock 1 1", "lock 0 1", "lock 1 0", "drain", "entries"))
 	return out
@@ -844,6 +923,10 @@ func spec() corr.Spec {
 				return genScriptShape(r, hitShape(r), "hit-keys", true, false, n)
 			case x < 26:
 				return genWide(r, r.Intn(3))
+			case x < 32:
+				return genReroute(r)
+			case x < 35:
+				return genScriptShape(r, routeShape(r), "route-keys", true, r.Bool(), n)
 			case x < 28:
 				return genStressStrings(r, tier)
 			case x < 30:
@@ -877,13 +960,14 @@ func spec() corr.Spec {
 			}
 			return parked && calls >= 4
 		},
-		Rule: "scripts of lock/rlock/unlock/runlock/locks/rlocks/unlocks/runlocks by 2..6 threads over 1..4 keys (long-list classes: 13..24 keys on 2..3 shards, up to 15 threads) on KeyLocker, KeyLockerGrp, TKeyLocker[int|string], TKeyLockerGrp[int|string] (modulo / xxhash routing, 1,2,3,73 shards; shard patterns: one shard, opposite to key order, random); each call runs in its own goroutine until it returns or parks (quiescence from goroutine states); thorough adds every script of <= 5 valid single-key calls by 3 threads over 2 keys on all four lockers; classes: order-respecting multi-key, single-key, hot key (1..2 keys, up to 6 threads), unordered (deadlocks allowed), malformed lines, parallel-stress (G goroutines on a fresh locker, occupancy counters per key), burst (a 1-shard locker holds 1024..1500 keys at once, then drains, beside held ordinary keys), neg-keys (negative/extreme int and int64 keys, single- and multi-key calls mixed), hit-keys (remap.HitGroup keys with equal Hit()), wide-list (one call over 13..40 different shards of 73), huge-list (one call over > 4096 keys), parallel-stress-strings (16..24 string keys), odd-keys (pointer keys mutated while locked; pointer/float keys are unroutable on group lockers); every script ends with drain + entries; non-trivial = some call parked and >= 4 calls ran; distinct = distinct script text",
+		Rule: "scripts of lock/rlock/unlock/runlock/locks/rlocks/unlocks/runlocks by 2..6 threads over 1..4 keys (long-list classes: 13..24 keys on 2..3 shards, up to 15 threads) on KeyLocker, KeyLockerGrp, TKeyLocker[int|string], TKeyLockerGrp[int|string] (modulo / xxhash routing, 1,2,3,73 shards; shard patterns: one shard, opposite to key order, random); each call runs in its own goroutine until it returns or parks (quiescence from goroutine states); thorough adds every script of <= 5 valid single-key calls by 3 threads over 2 keys on all four lockers; classes: order-respecting multi-key, single-key, hot key (1..2 keys, up to 6 threads), unordered (deadlocks allowed), malformed lines, parallel-stress (G goroutines on a fresh locker, occupancy counters per key), burst (a 1-shard locker holds 1024..1500 keys at once, then drains, beside held ordinary keys), neg-keys (negative/extreme int and int64 keys, single- and multi-key calls mixed), hit-keys (remap.HitGroup keys with equal Hit()), wide-list (one call over 13..40 different shards of 73), huge-list (one call over > 4096 keys), parallel-stress-strings (16..24 string keys), reroute / route-keys (`remap p` creates other ReMaps and lockers mid-script while keys are held; Bs keys owning their slice mixed with ints; ints with colliding xxhash digests), odd-keys (pointer keys mutated while locked; pointer/float keys are unroutable on group lockers); every script ends with drain + entries; non-trivial = some call parked and >= 4 calls ran; distinct = distinct script text",
 		Assumptions: []string{
 			"sync.RWMutex / sync.Mutex behave as documented (writer preference; a blocked writer excludes later readers); pending writers are admitted in arrival order when nothing else runs (observed, not relied upon by the theorems: the model admits any pending writer)",
 			"a runnable goroutine eventually runs; a holder eventually unlocks (premise of the deadlock clause)",
 			"keys are valid Go map keys with reflexive equality and, for the group lockers, of a type remap can route (a NaN key can never be unlocked, an unhashable dynamic type or an unroutable type panics inside the table-mutex section and wedges the locker: Go map / remap semantics, outside the property)",
 			"deadlock clause: every call uses an ascending duplicate-free list; a caller that already holds locks while acquiring more follows the locker's own (shard, key) rank (the runner judges only same-shard nesting, which is safe for any comparator direction); nested locking across shards in key order alone can deadlock (fixed-nested-cross-shard) and is outside the clause",
 			"the oracle mirrors the wake-up behaviour of sync.RWMutex/sync.Mutex of Go 1.23 (reader tokens, FIFO among sleeping writers); another correct RW lock or a Go release with different wake-ups shows as P/T disagreements on the unchanged tree — a harness issue to fix in the model, not a finding (writer preference is not part of the property)",
+			"routing is a pure function of (key bytes, shard count) — the model's `sh` parameter; the runner recomputes it independently of package remap (route.go) and checks the public remap API and the reachability of every held key's entry after every line",
 			"callers unlock only what they hold, in the mode they hold it (anything else crashes the Go runtime; such ops are refused as `misuse` by runner and oracle alike)",
 			"the shard index of a key is taken from the public remap API (routing itself is property C17)",
 		},
